@@ -195,7 +195,7 @@ func (ec *errClass) nonNil(v ssa.Value, from *ssa.BasicBlock, seen map[ssa.Value
 		if x.Op == token.MUL {
 			if g, ok := x.X.(*ssa.Global); ok {
 				// package-level error variables (err*/Err*) are initialised non-nil and never reassigned in this repo
-				if strings.HasPrefix(strings.ToLower(g.Name()), "err") {
+				if strings.HasPrefix(strings.ToLower(g.Name()), "err") || (g.Pkg != nil && g.Pkg.Pkg.Path() == "io" && (g.Name() == "EOF" || g.Name() == "ErrUnexpectedEOF")) {
 					return true
 				}
 			}
@@ -472,7 +472,10 @@ type mpQuery struct {
 	isEvent func(ssa.Instruction) bool     // passing one satisfies the obligation on that path
 	target  func(ssa.Instruction) bool     // nil: success return
 	w       *World
-	rearm   bool                           // (unused) reserved
+	// armFrom/armTo: arm when the edge armFrom->armTo is traversed (instead of at `start`)
+	armFrom, armTo *ssa.BasicBlock
+	// implied: on the FALSE edge of a condition that is one of these values, the mapped value is known non-nil
+	implied map[ssa.Value]ssa.Value
 }
 
 type mpResult struct {
@@ -484,6 +487,7 @@ type mpResult struct {
 type mpFacts struct {
 	conds  map[ssa.Value]bool
 	nonnil map[ssa.Value]bool
+	cells  map[ssa.Value]ssa.Value // local cell (Alloc) -> value last stored on this path
 }
 
 func (f mpFacts) key() string {
@@ -494,12 +498,18 @@ func (f mpFacts) key() string {
 	for k := range f.nonnil {
 		ks = append(ks, fmt.Sprintf("nn:%p", k))
 	}
+	for k, v := range f.cells {
+		ks = append(ks, fmt.Sprintf("c:%p=%p", k, v))
+	}
 	sort.Strings(ks)
 	return strings.Join(ks, ",")
 }
 
 func (f mpFacts) clone() mpFacts {
-	n := mpFacts{map[ssa.Value]bool{}, map[ssa.Value]bool{}}
+	n := mpFacts{map[ssa.Value]bool{}, map[ssa.Value]bool{}, map[ssa.Value]ssa.Value{}}
+	for k, v := range f.cells {
+		n.cells[k] = v
+	}
 	for k, v := range f.conds {
 		n.conds[k] = v
 	}
@@ -527,6 +537,9 @@ func mustPass(q mpQuery) *mpResult {
 		if found != nil {
 			return
 		}
+		if q.armTo != nil && b == q.armTo && from == q.armFrom {
+			armed = true
+		}
 		st := state{b, armed, f.key()}
 		if visited[st] {
 			return
@@ -551,12 +564,34 @@ func mustPass(q mpQuery) *mpResult {
 				return
 			}
 			switch x := ins.(type) {
+			case *ssa.Store:
+				if a, ok := x.Addr.(*ssa.Alloc); ok && !a.Heap || ok && isResultCell(a) {
+					f = f.clone()
+					f.cells[a] = x.Val
+				}
+			case *ssa.UnOp:
+				if a, ok := x.X.(*ssa.Alloc); ok && x.Op == token.MUL {
+					if v, ok := f.cells[a]; ok {
+						f = f.clone()
+						f.cells[x] = v // the load yields the value last stored on this path
+					} else if isResultCell(a) {
+						f = f.clone()
+						f.cells[x] = nil // zero value: nil
+					}
+				}
 			case *ssa.Return:
 				if !armed || q.target != nil {
 					return
 				}
 				if ei >= 0 {
 					rv := x.Results[ei]
+					if sv, ok := f.cells[rv]; ok {
+						if sv == nil {
+							found = &mpResult{path: append([]*ssa.BasicBlock{}, path...), exit: b, at: ins}
+							return
+						}
+						rv = sv
+					}
 					if f.nonnil[rv] || ec.nonNil(rv, from, map[ssa.Value]bool{}) {
 						return // error exit
 					}
@@ -598,6 +633,12 @@ func mustPass(q mpQuery) *mpResult {
 							nf.conds[k] = kval
 						}
 					}
+					if iv, ok := q.implied[k]; ok && !kval {
+						if !inv && !isNilT {
+							nf = f.clone()
+						}
+						nf.nonnil[iv] = true
+					}
 					if isNilT {
 						isNil := val == nilOnTrue
 						if isNil && f.nonnil[subj] {
@@ -616,7 +657,7 @@ func mustPass(q mpQuery) *mpResult {
 			}
 		}
 	}
-	walk(fn.Blocks[0], nil, q.start == nil, mpFacts{map[ssa.Value]bool{}, map[ssa.Value]bool{}}, nil)
+	walk(fn.Blocks[0], nil, q.start == nil && q.armTo == nil, mpFacts{map[ssa.Value]bool{}, map[ssa.Value]bool{}, map[ssa.Value]ssa.Value{}}, nil)
 	return found
 }
 
@@ -636,6 +677,22 @@ func instrPos(ins ssa.Instruction) token.Pos {
 		return ins.Pos()
 	}
 	return blockPos(ins.Block())
+}
+
+// isResultCell: the Alloc is the spilled cell of a named result (go/ssa spills results of
+// functions that defer).
+func isResultCell(a *ssa.Alloc) bool {
+	fn := a.Parent()
+	if fn == nil {
+		return false
+	}
+	res := fn.Signature.Results()
+	for i := 0; i < res.Len(); i++ {
+		if res.At(i).Name() != "" && res.At(i).Name() == a.Comment {
+			return true
+		}
+	}
+	return false
 }
 
 // callsOnAllPaths: every path from fn's entry to a success return passes an event (wrapper summary).
